@@ -247,7 +247,7 @@ def gen_case(ctx):
 
 
 def run(ctx):
-    for _ in range(ctx.scale(110, 1000)):
+    for _ in range(ctx.scale(110, 3000)):
         if ctx.out_of_time():
             break
         case = gen_case(ctx)
